@@ -198,9 +198,13 @@ Section Node.
     - rewrite andthen2_ret_l. destruct (finish0_spec s) as (s' & vs & E & K & Po).
       exists s', vs, []. split; [exact E|]. split; [intros ev []|]. split; assumption.
     - unfold value_selection2, andthen2.
-      destruct (finish0_spec (set_t_cost (set_t_value s (Some v)) c)) as (s' & vs & E & K & Po).
-      rewrite E. exists s', vs. eexists. split; [destruct s; cbn; reflexivity|].
-      split; [|split; [destruct s; exact K|destruct s; exact Po]].
+      set (s1 := set_t_cost (set_t_value s (Some v)) c).
+      assert (H1 : t_cycle s1 = t_cycle s) by (destruct s; reflexivity).
+      assert (H2 : t_fin s1 = t_fin s) by (destruct s; reflexivity).
+      assert (H3 : posts s1 = posts s) by (destruct s; reflexivity).
+      destruct (finish0_spec s1) as (s' & vs & E & K & Po). rewrite H1, H2 in *. rewrite H3 in Po.
+      rewrite E. exists s', vs. eexists. split; [reflexivity|].
+      split; [|split; assumption].
       intros ev Hev. destruct (option_eqb Z.eqb (t_value s) (Some v)); [destruct Hev|].
       destruct Hev as [<-|[]]. eexists _, _, _. reflexivity.
   Qed.
